@@ -359,6 +359,74 @@ func programs() []program {
 		s.Recv()
 	})
 
+	// the caller cancels while it keeps sending: Send races with the handler returning (Close) and with
+	// the cancel; every later Send / Recv / Trailer reads what Close wrote
+	add("wrap/bidi client-cancel||client-send", func() {
+		conn := wrap.ServerToClient(tp.TestApi_ServiceDesc, &apiServer{})
+		c := tp.NewTestApiClient(conn)
+		ctx, cancel := context.WithCancel(bg)
+		s, err := c.BidiStream(ctx)
+		if err != nil {
+			cancel()
+			return
+		}
+		s.Send(&tp.BidiStreamRequest{Msg: "x"})
+		par(func() { cancel() }, func() {
+			for i := 0; i < 2; i++ {
+				_ = s.Send(&tp.BidiStreamRequest{Msg: "y"}) // keeps sending whatever the answer
+			}
+			s.Recv()
+			_ = s.Trailer().Len()
+		})
+		cancel()
+	})
+	add("wrap/bidi cancel,send,send (handler returns in between)", func() {
+		conn := wrap.ServerToClient(tp.TestApi_ServiceDesc, &apiServer{})
+		c := tp.NewTestApiClient(conn)
+		ctx, cancel := context.WithCancel(bg)
+		s, err := c.BidiStream(ctx)
+		if err != nil {
+			cancel()
+			return
+		}
+		cancel()
+		for i := 0; i < 2; i++ {
+			_ = s.Send(&tp.BidiStreamRequest{Msg: "y"}) // keeps sending whatever the answer
+		}
+		_, _ = s.Recv()
+	})
+	add("wrap/bidi handler-fails||client-send", func() {
+		conn := wrap.ServerToClient(tp.TestApi_ServiceDesc, &apiServer{failAfter: 1})
+		c := tp.NewTestApiClient(conn)
+		s, err := c.BidiStream(bg)
+		if err != nil {
+			return
+		}
+		for i := 0; i < 3; i++ {
+			_ = s.Send(&tp.BidiStreamRequest{Msg: "y"}) // keeps sending whatever the answer
+		}
+		_, _ = s.Recv()
+		_ = s.Trailer().Len()
+	})
+	add("wrap/client-stream client-cancel||client-send", func() {
+		conn := wrap.ServerToClient(tp.TestApi_ServiceDesc, &apiServer{})
+		c := tp.NewTestApiClient(conn)
+		ctx, cancel := context.WithCancel(bg)
+		s, err := c.ClientStream(ctx)
+		if err != nil {
+			cancel()
+			return
+		}
+		par(func() { cancel() }, func() {
+			for i := 0; i < 2; i++ {
+				_ = s.Send(&tp.ClientStreamRequest{Msg: "y"})
+			}
+			r, _ := s.CloseAndRecv()
+			touch(r)
+		})
+		cancel()
+	})
+
 	// ---- group
 	for _, st := range []group.ExecutionStrategy{group.ExecutionStrategyAll, group.ExecutionStrategyAny, group.ExecutionStrategyFast, group.ExecutionStrategyRace} {
 		st := st
@@ -455,7 +523,24 @@ func programs() []program {
 }
 
 // apiServer: a plain TestApi implementation for the wrap programs
-type apiServer struct{ tp.UnimplementedTestApiServer }
+type apiServer struct {
+	tp.UnimplementedTestApiServer
+	failAfter int // BidiStream: fail after this many messages (0 = never)
+}
+
+func (s *apiServer) ClientStream(st grpc.ClientStreamingServer[tp.ClientStreamRequest, tp.ClientStreamResponse]) error {
+	n := 0
+	for {
+		_, err := st.Recv()
+		if err == io.EOF {
+			return st.SendAndClose(&tp.ClientStreamResponse{Msg: fmt.Sprint(n)})
+		}
+		if err != nil {
+			return err
+		}
+		n++
+	}
+}
 
 func (s *apiServer) Unary(ctx context.Context, req *tp.UnaryRequest) (*tp.UnaryResponse, error) {
 	grpc.SetHeader(ctx, metadata.Pairs("x-h", "1"))
@@ -476,13 +561,16 @@ func (s *apiServer) ServerStream(req *tp.ServerStreamRequest, st grpc.ServerStre
 	return nil
 }
 func (s *apiServer) BidiStream(st grpc.BidiStreamingServer[tp.BidiStreamRequest, tp.BidiStreamResponse]) error {
-	for {
+	for n := 1; ; n++ {
 		m, err := st.Recv()
 		if err == io.EOF {
 			return nil
 		}
 		if err != nil {
 			return err
+		}
+		if s.failAfter > 0 && n >= s.failAfter {
+			return fmt.Errorf("handler gives up after %d message(s)", n)
 		}
 		if err := st.Send(&tp.BidiStreamResponse{Msg: "re:" + m.Msg}); err != nil {
 			return err
